@@ -36,12 +36,14 @@ axiom a-compressed-stream-has-a-length: forall z int :: gzOutLen(z) >= 0
 func NewGZipCompressReader(r io.Reader) (z *GZipCompressReader)
   flag allocates
   requires r != nil
-  modifies gzFed, gzClosed, rdRem
+  modifies gzFed, gzClosed, rdRem, limUnder
   ensures z != nil && fresh(z) && z.r == r && z.err == nil && z.total == old(rdRem[ifaceVal(r)])
   ensures rdRem == old(store(rdRem, ref(z), gzOutLen(ref(z))))
+  ensures it-is-not-a-limit-reader: limUnder == old(store(limUnder, ref(z), 0))
   ensures nothing-compressed-yet: z.gw != nil && z.buff != nil && gzFed[ref(z.gw)] == 0 && !gzClosed[ref(z.gw)]
   ghost at return: z.total := rdRem[ifaceVal(r)]
   ghost at return: rdRem := store(rdRem, ref(z), gzOutLen(ref(z)))
+  ghost at return: limUnder := store(limUnder, ref(z), 0)
 
 func (r *GZipCompressReader) pull()
   requires gzWF(r) && r.err == nil
@@ -57,4 +59,21 @@ func (r *GZipCompressReader) Read(p []byte) (n int, err error)
   ensures the-compressed-stream-ends-only-closed-and-complete: err != nil && err == io.EOF ==> gzClosed[ref(r.gw)] && rdRem[ifaceVal(r.r)] == 0 && gzFed[ref(r.gw)] == r.total
   ensures only-the-pull-error-is-reported: err != nil ==> err == r.err
   invariant[1] gzWF(r) && err == nil && (ref(p) == old(ref(p)) || fresh(p))
+
+func (r *GZipCompressReader) Close() (err error)
+  trusted
+
+// the gzip decoder: the number of bytes it will yield is a function of the object (content not modelled);
+// whether the stream is well-formed gzip is decided by compress/gzip (external)
+ufunc gunzipLen(z int) int
+axiom a-decoded-stream-has-a-length: forall z int :: gunzipLen(z) >= 0
+func NewGZipDecompressReader(r io.Reader) (z *GZipDecompressReader, err error)
+  trusted
+  flag allocates
+  modifies rdRem, limUnder
+  ensures err != nil ==> z == nil && rdRem == old(rdRem) && limUnder == old(limUnder)
+  ensures err == nil ==> z != nil && fresh(z) && rdRem == old(store(rdRem, ref(z), gunzipLen(ref(z)))) && limUnder == old(store(limUnder, ref(z), 0))
+
+func (r *GZipDecompressReader) Close() (err error)
+  trusted
 @*/
